@@ -231,7 +231,7 @@ func init() {
 			ctx.Nontrivial("replay-b")
 			return
 		}
-		n := ctx.N(150, 5000)
+		n := ctx.N(4000, 60000)
 		for i := 0; i < n; i++ {
 			c := genC10(ctx.Rng, pick(ctx.Rng, "hwmon", "hwmon", "hwmon", "file", "sim"))
 			if i < 3 {
@@ -239,7 +239,7 @@ func init() {
 			}
 			checkC10(ctx, c)
 		}
-		nc := ctx.N(4, 60)
+		nc := ctx.N(16, 200)
 		for i := 0; i < nc; i++ {
 			checkC10(ctx, genC10(ctx.Rng, "cmd"))
 		}
